@@ -43,7 +43,7 @@ def _expected(x):
 FLOATS = [0.0, -0.0, 0.1 + 0.2, 1e-300, 1.7976931348623157e308, 5e-324, -2.5, 1 / 3, math.inf, -math.inf, 123456789.123456789]
 
 
-def _problem(dbname):
+def _problem(dbname, thread_safe=True):
     from artap.problem import Problem
     from artap.datastore import SqliteDataStore
 
@@ -58,7 +58,7 @@ def _problem(dbname):
             return [sum(individual.vector), individual.vector[0] * 0.1]
     p = P()
     p.logger.setLevel(logging.CRITICAL)
-    p.data_store = SqliteDataStore(p, database_name=dbname, mode="write")
+    p.data_store = SqliteDataStore(p, database_name=dbname, mode="write", thread_safe=thread_safe)
     return p
 
 
@@ -100,7 +100,7 @@ def roundtrip(rng, tier):
     for k in range(40 if tier == "quick" else 800):
         d = tempfile.mkdtemp(prefix="pyvc-c10-")
         dbname = os.path.join(d, "db.sqlite")
-        p = _problem(dbname)
+        p = _problem(dbname, thread_safe=(k % 3 != 2))        # every third history uses the cached-connection mode
         pool, expected = [], {}
         steps = rng.randint(1, 12)
 
